@@ -246,6 +246,72 @@ func psInitBusy(a kv) string {
 	return psErr(err)
 }
 
+// psInitSparse: the database file is mostly unused pages (many fans were saved and deleted again); a controller starts up
+// (Init) while another handle holds the file, and other controllers' saves queue up behind the same lock. Whatever Init
+// does with such a file, every save that reported success is there for the next load (seed C14k: Init compacted the file
+// into a copy and renamed it over the database - writers that had opened the old file committed into the unlinked one).
+func psInitSparse(a kv) string {
+	rounds, savers := a.int("rounds", 2), a.int("savers", 4)
+	failed, lost := 0, 0
+	for t := 0; t < rounds; t++ {
+		big := map[int]float64{}
+		for k := 0; k < 256; k++ {
+			big[k] = float64(1000 + k)
+		}
+		n := a.int("n", 24)
+		for i := 0; i < n; i++ {
+			if err := curPs.p.SaveFanPwmData(psFan(fmt.Sprintf("spx%d", i), &big)); err != nil {
+				return "err"
+			}
+		}
+		for i := 0; i < n; i++ {
+			_ = curPs.p.DeleteFanPwmData(psFan(fmt.Sprintf("spx%d", i), nil))
+		}
+		db, err := bolt.Open(curPs.path, 0600, nil)
+		if err != nil {
+			return "err"
+		}
+		var wg sync.WaitGroup
+		errs := make([]error, savers+1)
+		wg.Add(1)
+		go func() {
+			defer wg.Done()
+			defer func() {
+				if r := recover(); r != nil {
+					errs[savers] = fmt.Errorf("panic: %v", r)
+				}
+			}()
+			errs[savers] = persistence.NewPersistence(curPs.path).Init()
+		}()
+		time.Sleep(5 * time.Millisecond)
+		for i := 0; i < savers; i++ {
+			wg.Add(1)
+			go func(i int) {
+				defer wg.Done()
+				errs[i] = persistence.NewPersistence(curPs.path).SaveFanPwmMap(fmt.Sprintf("sps%d", i), map[int]int{0: t, 255: 200 + i})
+			}(i)
+			time.Sleep(7 * time.Millisecond)
+		}
+		time.Sleep(time.Duration(a.int("hold_ms", 60)) * time.Millisecond)
+		_ = db.Close()
+		wg.Wait()
+		for i := 0; i <= savers; i++ {
+			if errs[i] != nil {
+				failed++
+			}
+		}
+		for i := 0; i < savers; i++ {
+			id := fmt.Sprintf("sps%d", i)
+			got, err := persistence.NewPersistence(curPs.path).LoadFanPwmMap(id)
+			if errs[i] == nil && (err != nil || got[0] != t || got[255] != 200+i) {
+				lost++
+			}
+			_ = persistence.NewPersistence(curPs.path).DeleteFanPwmMap(id)
+		}
+	}
+	return fmt.Sprintf("ok failed=%d lost=%d", failed, lost)
+}
+
 func init() {
 	cleanups = append(cleanups, psClose)
 	register("ps", func(op string, a kv) string {
@@ -263,6 +329,8 @@ func init() {
 			return psInitBusy(a)
 		case "ps.delsave":
 			return psDelSave(a)
+		case "ps.initsparse":
+			return psInitSparse(a)
 		case "ps.reopen":
 			curPs.p = persistence.NewPersistence(curPs.path)
 			return "ok"
